@@ -211,6 +211,9 @@ def build_input(case):
         idx = idx.as_unit(unit)
     idx = idx.tz_convert(base["zone"])
     df = pd.DataFrame({c: row_vals[c].copy() for c in cols}, index=idx)
+    if base.get("entry") == "datetime_column":
+        # the timestamps arrive in a tz-aware `datetime` column instead of the index (the other documented entry form)
+        df = df.reset_index(names="datetime")
     return df, row_inst, row_vals
 
 
@@ -219,9 +222,9 @@ def _fp(df):
         tuple(df.columns),
         tuple(str(d) for d in df.dtypes),
         str(df.index.dtype),
-        df.index.asi8.tobytes(),
+        df.index.asi8.tobytes() if isinstance(df.index, pd.DatetimeIndex) else repr(list(df.index[:3])) + str(len(df.index)),
         df.index.name,
-        tuple(df[c].to_numpy().tobytes() for c in df.columns),
+        tuple((df[c].astype("int64") if str(df[c].dtype).startswith("datetime64") else df[c]).to_numpy().tobytes() for c in df.columns),
     )
 
 
@@ -595,6 +598,8 @@ def cases(tier):
                             if (fuel == "electric" and ghi and cls == "baseline" and nd <= 43) and (nd <= 4 or thorough):
                                 for unit in ("us", "s"):
                                     A.append({"base": dict(b, unit=unit), "devs": []})
+                            if fuel == "electric" and ghi and nd <= 4:
+                                A.append({"base": dict(b, entry="datetime_column"), "devs": []})
                             if (p in (None, "mid") or nd <= 4) and (fuel == "electric" or thorough):
                                 for ek in empty_kinds(b):
                                     A.append({"base": b, "devs": [list(k) for k in ek]})
